@@ -52,7 +52,11 @@ type Case struct {
 	// ReqHook: the application installed its own (accept-everything) ValidateRequestID: it replaces the request-ID
 	// rule, the addressing rules hold regardless.  ArtStatus (artifact entry): status of the ArtifactResponse that
 	// carries the Response ("" = Success): the carrier's own failure is a failure.  ArtIssuer: its Issuer.
-	ReqHook          bool   `json:"req_hook,omitempty"`
+	ReqHook bool `json:"req_hook,omitempty"`
+	// Unsolicited: the Response and its confirmations carry no InResponseTo and no request is outstanding (what an
+	// IdP-initiated login looks like); judged only when AllowIDPInitiated is on
+	Unsolicited      bool   `json:"unsolicited,omitempty"`
+	perm             bool   // internal: this is the audience-order permutation of another case
 	ArtStatus        string `json:"art_status,omitempty"`
 	ArtIssuer        *Field `json:"art_issuer,omitempty"`
 	RespIssuerFormat string `json:"resp_issuer_format,omitempty"`
@@ -134,6 +138,9 @@ var statusCodes = map[string][]string{
 	"absent":          {},
 }
 
+// lastAccepted: verdict of the most recent presentation (read by the audience-order permutation).
+var lastAccepted bool
+
 // statusNames: the keys of statusCodes in a fixed order (enumerations are sharded by index).
 func statusNames() []string {
 	var out []string
@@ -152,6 +159,11 @@ func check(c Case) pbt.Result {
 	}
 	at := receivedAt(c)
 	r := spkit.Baseline(now, "id-req", audience)
+	outstanding := []string{"id-req"}
+	confIRT := forge.S("id-req")
+	if c.Unsolicited {
+		r.InResponseTo, confIRT, outstanding = nil, nil, []string{}
+	}
 	r.Issuer = valueAt(c.RespIssuer, spkit.IDPEntity, at)
 	r.IssuerFormat = c.RespIssuerFormat
 	destCorrect := spkit.SPACS
@@ -169,7 +181,7 @@ func check(c Case) pbt.Result {
 		if i < len(c.Methods) {
 			m = methodURI(c.Methods[i])
 		}
-		a.Confirmations = append(a.Confirmations, forge.Confirmation{Method: m, Recipient: valueAt(rf, spkit.SPACS, at), InResponseTo: forge.S("id-req"), NotOnOrAfter: forge.TP(now.Add(300e9)), NoData: rf.Class == "nodata"})
+		a.Confirmations = append(a.Confirmations, forge.Confirmation{Method: m, Recipient: valueAt(rf, spkit.SPACS, at), InResponseTo: confIRT, NotOnOrAfter: forge.TP(now.Add(300e9)), NoData: rf.Class == "nodata"})
 	}
 	a.Audiences = nil
 	var auds []string
@@ -230,7 +242,7 @@ func check(c Case) pbt.Result {
 	var o spkit.Outcome
 	switch c.Entry {
 	case "post":
-		o = spkit.ParsePOST(sp, forge.Bytes(el), []string{"id-req"}, at)
+		o = spkit.ParsePOST(sp, forge.Bytes(el), outstanding, at)
 	case "artifact":
 		artStatus := []string{forge.StatusOK}
 		if c.ArtStatus != "" {
@@ -244,13 +256,20 @@ func check(c Case) pbt.Result {
 		if err != nil {
 			return pbt.Result{Err: "harness: " + err.Error()}
 		}
-		o = spkit.ParseArtifactXML(sp, forge.Bytes(env), []string{"id-req"}, "id-artreq", at)
+		o = spkit.ParseArtifactXML(sp, forge.Bytes(env), outstanding, "id-artreq", at)
 	default:
-		o = spkit.ParseXML(sp, forge.Bytes(el), []string{"id-req"}, at)
+		o = spkit.ParseXML(sp, forge.Bytes(el), outstanding, at)
 	}
 
+	lastAccepted = o.Accepted()
+	if c.perm {
+		return pbt.Result{}
+	}
 	// ---- reference model
 	res := pbt.Result{Classes: []string{"entry:" + c.Entry, "status:" + c.Status}}
+	if c.Unsolicited {
+		res.Classes = append(res.Classes, "unsolicited")
+	}
 	if c.Trust != "" {
 		res.Classes = append(res.Classes, "sp-trust:"+c.Trust)
 	}
@@ -269,8 +288,8 @@ func check(c Case) pbt.Result {
 			break
 		}
 	}
-	var defects []string // reasons for must-reject
-	dontCare := false
+	var defects []string                     // reasons for must-reject
+	dontCare := c.Unsolicited && !c.AllowIDP // without AllowIDPInitiated an unsolicited response is C04's to refuse
 	nonCorrect, near := 0, 0
 	note := func(f Field, counts bool) {
 		if f.Class == "near" {
@@ -387,6 +406,24 @@ func check(c Case) pbt.Result {
 		res.Err = "panic: " + o.Panic
 		return res
 	}
+	if len(c.Audiences) >= 2 && o.Panic == "" && !c.OneRestr {
+		// whatever the reading of several audience restrictions (all must name the SP, or one of them), it does not
+		// depend on their order.  (Several Audience elements inside ONE restriction are not permuted: the library's
+		// schema type holds a single Audience per restriction and keeps the last one - see DESIGN section 6, observations.)
+		acc := o.Accepted()
+		c2 := c
+		c2.perm = true
+		c2.Audiences = nil
+		for i := len(c.Audiences) - 1; i >= 0; i-- {
+			c2.Audiences = append(c2.Audiences, c.Audiences[i])
+		}
+		_ = check(c2)
+		res.Classes = append(res.Classes, "audience-order-permuted")
+		if lastAccepted != acc {
+			res.Err = fmt.Sprintf("the verdict depends on the order of the audiences: %v accepted=%v, reversed accepted=%v", c.Audiences, acc, lastAccepted)
+			return res
+		}
+	}
 	switch {
 	case len(defects) > 0:
 		res.Classes = append(res.Classes, "model:must-reject")
@@ -464,6 +501,7 @@ func gen(t *rapid.T) Case {
 		c.Noise = rapid.Uint64Range(1, 255).Draw(t, "noise")
 	}
 	c.ReqHook = rapid.IntRange(0, 4).Draw(t, "reqhook") == 0
+	c.Unsolicited = c.AllowIDP && rapid.IntRange(0, 2).Draw(t, "unsolicited") == 0
 	if c.Entry == "artifact" && rapid.IntRange(0, 2).Draw(t, "artcarrier") == 0 {
 		c.ArtStatus = rapid.SampledFrom([]string{"requester", "responder", "versionmismatch", "nested-success", "near-success", "empty", "absent"}).Draw(t, "artstatus")
 		if rapid.Bool().Draw(t, "artissuer?") {
@@ -593,6 +631,39 @@ func enumDeliveredElsewhere(_ string, emit func(Case)) {
 				c := base
 				c.Status = st
 				emit(c)
+			}
+		}
+		// IdP-initiated: no InResponseTo anywhere, nothing outstanding, AllowIDPInitiated on - every single defect
+		for _, rs := range []bool{false, true} {
+			base := Case{RespIssuer: ok, AsrtIssuer: ok, Recipients: []Field{ok}, Audiences: []Field{ok}, Destination: ok, Status: "success", AsrtSigned: true, RespSigned: rs, ReceivedAt: "acs", Entry: entry, AllowIDP: true, Unsolicited: true}
+			emit(base)
+			for _, bad := range []Field{{Class: "wrong"}, {Class: "empty"}, {Class: "absent"}, {Class: "near", Kind: nearKinds[0]}} {
+				c := base
+				c.RespIssuer = bad
+				emit(c)
+				c = base
+				c.AsrtIssuer = bad
+				emit(c)
+				c = base
+				c.Recipients = []Field{bad}
+				emit(c)
+				c = base
+				c.Audiences = []Field{bad}
+				emit(c)
+				c = base
+				c.Destination = bad
+				emit(c)
+			}
+			for _, st := range statusNames() {
+				c := base
+				c.Status = st
+				emit(c)
+			}
+		}
+		// several audiences, the SP's own at each position among others
+		for _, one := range []bool{false, true} {
+			for _, auds := range [][]Field{{ok, {Class: "wrong"}}, {{Class: "wrong"}, ok}, {{Class: "wrong"}, ok, {Class: "alt", Kind: "sp-acs"}}, {ok, ok}, {{Class: "wrong"}, {Class: "near", Kind: nearKinds[0]}}} {
+				emit(Case{RespIssuer: ok, AsrtIssuer: ok, Recipients: []Field{ok}, Audiences: auds, OneRestr: one, Destination: ok, Status: "success", AsrtSigned: true, ReceivedAt: "acs", Entry: entry})
 			}
 		}
 		if entry == "artifact" {
